@@ -146,6 +146,7 @@ def perm_nontrivial(case):
 
 
 def prop_twin_matrix(case):
+    refused = False
     with warnings.catch_warnings():
         warnings.simplefilter("ignore")
         with expect_ok("twin.build"):
@@ -156,6 +157,18 @@ def prop_twin_matrix(case):
         for ds in case["spec"]["dataset"]:
             with expect_ok("twin.matrix_call"):
                 a = labelled_matrix(model, params, case, ds)
+            # between the twins: an evaluation of the same shape that is refused half-way (all plain parameters at -1e4: overflowing
+            # exponentials, non-finite concentrations) - what a label denotes does not depend on an earlier refused evaluation
+            bad = params.copy()
+            for p_ in bad.all():
+                if p_.expression is None:
+                    p_.value = -1e4
+            try:
+                with np.errstate(all="ignore"):
+                    labelled_matrix(model, bad, case, ds)
+            except Exception:  # noqa: BLE001
+                refused = True
+            with expect_ok("twin.matrix_call_after_refused_evaluation"):
                 b = labelled_matrix(twin, tparams, case, ds)
             compare_labelled_columns(a, b, "twin.matrix", ds)
             if case["spec"]["dataset"][ds].get("global_megacomplex"):
@@ -163,7 +176,7 @@ def prop_twin_matrix(case):
                     a = labelled_matrix(model, params, case, ds, global_matrix=True)
                     b = labelled_matrix(twin, tparams, case, ds, global_matrix=True)
                 compare_labelled_columns(a, b, "twin.global_matrix", ds)
-    return {"nontrivial": perm_nontrivial(case), "tags": tags_of(case)}
+    return {"nontrivial": perm_nontrivial(case), "tags": tags_of(case) + (["refused_evaluation_between_twins"] if refused else [])}
 
 
 # ------------------------------------------------------------------------------------------
